@@ -112,7 +112,7 @@ pub fn c04(rep: &mut Report, tier: &str, seed: u64) {
         rep.required.push((name, "ignored_sequences_checked".into()));
     }
     // "depends only on the byte sequence": two instances driven alternately, every interleaving (E6)
-    if REPLAY.get().is_none() {
+    if REPLAY.get().is_none() || crate::report::REPLAY_CASE.get().is_some() {
         let quick = tier == "quick";
         let bytes: Vec<u8> = vec![b'a', b'[', b'A', 0x0D, 0x0A, 0x1B, 0x80, 0x8F, 0x90, 0xA0, 0xBF, 0xC3, 0xD1, 0xE0, 0xE1, 0xED, 0xF0, 0xF1, 0xF4];
         rep.enumerations.push(crate::e6::dec_interleavings("C04", &bytes, if quick { 4 } else { 5 }));
